@@ -57,6 +57,28 @@ def check_screen(s, rnd):
     keys = [tuple([s.sample_ids[r]] + list(s.treatment_ids[r])) for r in range(n)]
     kept = [keys[r] for r in range(n) if f.selection_vector[r]]
     if len(kept) != len(set(kept)) or set(kept) != set(keys): return "unique-condition filter does not keep exactly one row per condition"
+    # the unique filter applied to a VIEW: inside the view, one row per distinct condition of the view, operand untouched
+    for sel in sels[1:]:
+        v = s.subset(sel.copy()); fv = filter_dataset_to_unique_treatments(v)
+        kept = [keys[r] for r in range(n) if fv.selection_vector[r]]
+        if fv.screen is not s or np.any(fv.selection_vector & ~sel) or len(kept) != len(set(kept)) or set(kept) != {keys[r] for r in range(n) if sel[r]}:
+            return "unique-condition filter on a view does not keep exactly one row of the view per condition of the view"
+        if not eq(v.selection_vector, sel): return "unique-condition filter changed its operand"
+    # long-lived views over a history of the parent: read every attribute, let the parent change (an unobserved plate is marked observed in place),
+    # read again: a view always reports the parent's CURRENT values at its selected rows
+    views = [(s.subset(sel.copy()), sel.copy()) for sel in sels] + [(p, p.selection_vector.copy()) for p in s.plates]
+    for v, sel in views:
+        for a in ATTRS: getattr(v, a)
+    for p in list(s.plates):
+        if p.is_observed: continue
+        pm = p.selection_vector.copy()
+        s.set_observed(pm, np.array([rnd.uniform(2, 3) for _ in range(int(pm.sum()))]))
+        for v, sel in views:
+            if not eq(v.selection_vector, sel): return "a view's selection changed when the parent screen was updated"
+            for a in ATTRS:
+                if not eq(getattr(v, a), getattr(s, a)[sel]): return "after the parent screen changed (set_observed) a view created earlier reports stale %s" % a
+            if v.size and v.is_observed != bool(s.observation_mask[sel].all()): return "after the parent screen changed a view's is_observed is stale"
+        break
     other = make(max(n, 1), rnd)
     try:
         s.subset(sels[1].copy()).combine(other.subset(np.ones(other.size, bool))); return "views of different parents combined"
